@@ -243,12 +243,12 @@ def history_cases(draw, threaded=False):
 
 
 def campaign_history(ctx):
-    ctx.search(history_cases(), history_oracle(ctx), ctx.budget(1200, 60000))
+    ctx.search(history_cases(), history_oracle(ctx), ctx.budget(3600, 60000))
 campaign_history.shards = (4, 16)
 
 
 def campaign_threads(ctx):
-    ctx.search(history_cases(threaded=True), history_oracle(ctx), ctx.budget(150, 6000), shrink=False)
+    ctx.search(history_cases(threaded=True), history_oracle(ctx), ctx.budget(450, 6000), shrink=False)
 campaign_threads.shards = (2, 8)
 
 
@@ -315,7 +315,7 @@ def entry_cases(draw):
 
 
 def campaign_entry(ctx):
-    ctx.search(entry_cases(), entry_oracle(ctx), ctx.budget(2500, 100000))
+    ctx.search(entry_cases(), entry_oracle(ctx), ctx.budget(7500, 100000))
 campaign_entry.shards = (4, 16)
 
 
@@ -343,7 +343,7 @@ def campaign_singletons(ctx):
     def strat(draw):
         spec, params, value = draw(V.cases(frag=FRAG, depth=2))
         return [spec, params, value, draw(st.binary(max_size=12))]
-    ctx.search(strat(), oracle, ctx.budget(600, 20000))
+    ctx.search(strat(), oracle, ctx.budget(1800, 20000))
     ctx.note("singletons checked", len(names))
 campaign_singletons.shards = (1, 4)
 
